@@ -13,7 +13,7 @@ from sync_e2e import T0
 THEOREMS = ['C03_delete_needs_consent', 'C03_overwrite_needs_consent', 'C03_no_leak', 'C03_no_leak_entry',
             'C03_error_fails', 'C03_unattended_fails', 'C03_cancel_fails', 'C03_skip_removes_all',
             'C03_only_confirmable_removed', 'C03_error_is_clean', 'C03_decide_first_a', 'C03_decide_first_b',
-            'C03_skip_keeps_partial', 'C03_end_to_end', 'C03_end_to_end_executable']
+            'C03_skip_keeps_partial', 'C03_end_to_end', 'C03_end_to_end_executable', 'C03_end_to_end_walked']
 
 
 def consent(cfg, answers, cat):
